@@ -330,6 +330,81 @@ def scen_told(events):
     return scen
 
 
+GATE_OUTS = ('MissingJiraId', 'JiraIssueNotFound', 'IncorrectJiraProject', 'IssueTypeNotSupported',
+             'IncorrectFixVersion')
+# states of the ticket: (issue type, fix versions) or None (no such issue); what the gate must answer;
+# the details its message must carry
+TICKETS = {
+    'fits': (('Bug', ['4.3.0', '5.1.0']), None, None),
+    'fits+suffixed': (('Bug', ['4.3.0', '5.1.0', '5.1.0_hf1']), None, None),
+    'one version missing': (('Bug', ['4.3.0']), 'IncorrectFixVersion', 'versions=4.3.0 expected=4.3.0,5.1.0'),
+    'other version missing': (('Bug', ['5.1.0']), 'IncorrectFixVersion', 'versions=5.1.0 expected=4.3.0,5.1.0'),
+    'no version': (('Bug', []), 'IncorrectFixVersion', 'versions= expected=4.3.0,5.1.0'),
+    'wrong type': (('Epic', ['4.3.0', '5.1.0']), 'IssueTypeNotSupported', 'type=Epic'),
+    'absent': (None, 'JiraIssueNotFound', 'issue=PROJ-7'),
+}
+
+
+def scen_ticket(nsteps, pid, key, states, passed):
+    """C11 along a history: the ticket is edited between evaluations (solver-chosen state each
+    time).  Every evaluation must end the way the ticket's current state commands (`passed`
+    when it fits); a refusal must leave the repository alone and be reported by its own
+    message - the robot's latest word on the pull request is the message of *this* refusal,
+    with the current details."""
+    def scen(s, choose):
+        bad = []
+        s.play([('approvals', pid, [])])          # nobody approved: a pull request that passes the gate stays open
+        for i in range(nsteps):
+            st = states[choose('ticket%d' % i, len(states))]
+            ticket, want, details = TICKETS[st]
+            s.play([('jira_set', key) + (ticket or (None,))])
+            r = s.play([('eval_pr', pid)])[0]
+            if r['out'] != (want or passed):
+                bad.append('C11 ticket gate: evaluation ended %s although the ticket %s' % (
+                    r['out'], 'fits' if want is None else 'does not fit (%s)' % want))
+                continue
+            if want is None:
+                continue
+            if r['ops']:
+                bad.append('C11 a refusal of the ticket gate touched the repository')
+            msgs = [c.text for c in s.host.prs[pid].comments if c.author == H.ROBOT]
+            last = msgs[-1] if msgs else ''
+            tmpl = {'IncorrectFixVersion': 'incorrect_fix_version.md', 'IssueTypeNotSupported':
+                    'issue_type_not_supported.md', 'JiraIssueNotFound': 'jira_issue_not_found.md'}[want]
+            if tmpl not in last or details not in last:
+                bad.append('C11 a refusal of the ticket gate is not reported by its own message')
+        return bad
+    return scen
+
+
+def with_failed_push(inner, maxk=8):
+    """One push command of the run (solver-chosen, possibly none) fails transiently; the real
+    retry handler runs (its sleep is a no-op): a retried push must be the same push."""
+    def scen(s, choose):
+        import bert_e.workflow.git_utils as GU
+        k = choose('failed_push', maxk + 1)
+        s.set_fail_push(k or None)
+        saved = GU.RetryHandler.wait
+        GU.RetryHandler.wait = GF.ORIG_WAIT
+        try:
+            return inner(s, choose)
+        finally:
+            GU.RetryHandler.wait = saved
+    return scen
+
+
+def scen_expect(events, expected):
+    """Play the events; the job outcomes must be the expected ones (deterministic histories:
+    green builds, no conflicts)."""
+    def scen(s, choose):
+        recs = s.play(events)
+        got = [r['out'] for r in recs]
+        if got != list(expected):
+            return ['the jobs ended %s instead of %s' % (got, list(expected))]
+        return []
+    return scen
+
+
 def scen_play(events):
     """Just play the events: the monitors installed on the repository decide."""
     def scen(s, choose):
@@ -440,6 +515,29 @@ def scen_hold(prefix, hold, lift, event, held_outs):
     return scen
 
 
+def scen_finished(prefix, finish, event, nevals=2):
+    """C12: a pull request that was closed never gets integration branches, queue entries or
+    merges afterwards, whatever its approvals and builds: the only ref operations of its later
+    evaluations are deletions (the clean-up of its integration branches), no integration pull
+    request is opened, and the evaluation ends as declined / nothing to do."""
+    def scen(s, choose):
+        bad = []
+        s.play(prefix)
+        s.play(finish)
+        for k in range(nevals):
+            h = s.play([event])
+            if not h:
+                return bad
+            if any(kind != 'delete' for kind, ref in h[0]['ops']):
+                bad.append('C12 a closed pull request got branches / queue entries / merges')
+            if any(e[0] not in ('comment', 'decline') for e in h[0]['effects']):
+                bad.append('C12 a closed pull request got integration pull requests')
+            if h[0]['out'] not in ('PullRequestDeclined', 'NothingToDo'):
+                bad.append('C12 a closed pull request was evaluated (%s)' % h[0]['out'])
+        return bad
+    return scen
+
+
 def scen_reset(prefix, change, reset_comment, force_comment, manual):
     """C15 along a history: `reset` refuses (deleting nothing) iff an integration branch holds
     manual work; `force_reset` discards it; either command touches only the integration
@@ -489,6 +587,39 @@ def scen_reset(prefix, change, reset_comment, force_comment, manual):
         n = s.play([('eval_pr', p.id)])[0]
         if not (mine <= set(s.ref_names())) and n['out'] not in ('Conflict', 'NothingToDo', 'BranchHistoryMismatch'):
             bad.append('C15 the evaluation after a reset did not rebuild the integration branches (%s)' % n['out'])
+        return bad
+    return scen
+
+
+def scen_reset_twice(prefix, rounds=2):
+    """C15 along a history without manual work: `reset` / `force_reset` (solver-chosen each
+    time) is asked several times on one pull request, with ordinary evaluations in between.
+    Each command deletes exactly the integration branches of its pull request, and the
+    evaluation that follows rebuilds them (it is not the command being run again)."""
+    def scen(s, choose):
+        bad = []
+        s.play(prefix)
+        p = s.prs[0]
+        mine = set(GF.w_name(p, t) for t in GF.targets(s.shape, p.dst)[1:])
+        if not (mine & set(s.ref_names())):
+            return bad
+        for k in range(rounds):
+            cmd = ('reset', 'force_reset')[choose('command%d' % k, 2)]
+            s.play([('comment', p.id, 'contributor', '@robot ' + cmd)])
+            r = s.play([('eval_pr', p.id)])[0]
+            if r['out'] != 'ResetComplete':
+                bad.append('C15 %s did not complete although no manual work is on the integration branches (%s)'
+                           % (cmd, r['out']))
+                return bad
+            if any(kind != 'delete' or ref not in mine for kind, ref in r['ops']):
+                bad.append('C15 %s touched a branch that is not an integration branch of this pull request' % cmd)
+            if mine & set(s.ref_names()):
+                bad.append('C15 %s completed but integration branches are still there' % cmd)
+            for j in range(2):
+                n = s.play([('eval_pr', p.id)])[0]
+                if n['out'] == 'ResetComplete' or not (mine <= set(s.ref_names())):
+                    bad.append('C15 the evaluation after a reset did not rebuild the integration branches (%s)' % n['out'])
+                    return bad
         return bad
     return scen
 
@@ -715,6 +846,14 @@ def hist_render(template, **kw):
     if template == 'build_failed.md':
         # the real message names the failing branch and links the commit and its build
         text += '\n\nbranch=%s commit=%s' % (kw.get('branch'), kw.get('commit_url'))
+    if template == 'incorrect_fix_version.md':
+        text += '\n\nissue=%s versions=%s expected=%s' % (getattr(kw.get('issue'), 'key', None),
+                                                        ','.join(kw.get('issue_versions', [])),
+                                                        ','.join(kw.get('expect_versions', [])))
+    elif template == 'issue_type_not_supported.md':
+        text += '\n\nissue=%s type=%s' % (kw['issue'].key, kw['issue'].fields.issuetype.name)
+    elif template in ('jira_issue_not_found.md', 'incorrect_jira_project.md'):
+        text += '\n\nissue=%s' % (getattr(kw.get('issue'), 'key', kw.get('issue')),)
     opts = kw.get('active_options')
     if opts:
         # the real templates print the options in force below the message
@@ -741,6 +880,9 @@ def run_family(rep, prop, cfgs, part, replay_cap=6, witness_cap=10, split_depth=
     for c in cfgs:
         c.setdefault('seed', rep.seed)
     acc = common.explore_configs(cfgs, make_harness, split_depth=split_depth, max_depth=6000)
+    broken = dict(common.pop_config_errors())
+    for i, msg in broken.items():
+        rep.error('history configuration %s inconclusive: %s' % (cfgs[i]['name'], msg[:300]))
     by_sig = {}
     wits = []
     njobs = 0
@@ -748,6 +890,8 @@ def run_family(rep, prop, cfgs, part, replay_cap=6, witness_cap=10, split_depth=
     for i, c in enumerate(cfgs):
         results, st = acc[i]
         rep.add_stats(st, '%s: %s' % (part, c['name']))
+        if i in broken:
+            continue
         if not results:
             rep.error('vacuity: no path in history configuration %s' % c['name'])
         for _, r in results:
@@ -834,6 +978,20 @@ def family(prop, tier):
     """All history configurations of a property, keyed for replay."""
     out = []
     EV1 = ('eval_pr', 1)
+    if prop == 'C11':
+        jira = dict(jira_account_url='http://jira', jira_email='robot@x', jira_token='t', jira_keys=['PROJ'],
+                    prefixes={'Bug': 'bugfix', 'Story': 'feature'}, disable_version_checks=False,
+                    required_peer_approvals=1)
+        states = list(TICKETS) if tier == 'thorough' else ['fits', 'one version missing', 'other version missing',
+                                                           'wrong type', 'absent']
+        for mode in (('noqueue', 'queue') if tier == 'thorough' else ('noqueue',)):
+            out.append(_cfg('ticket:%s:F' % mode, 'ticket gate along a history (%s): the ticket is edited before each of '
+                            '%d evaluations' % (mode, 3 if tier == 'quick' else 4), F, [(1, 'bugfix/PROJ-7', 'development/4.3')],
+                            mode, scen_ticket(3 if tier == 'quick' else 4, 1, 'PROJ-7', states, 'ApprovalRequired'),
+                            settings=jira, green=True, no_conflicts=True,
+                            expect_outcomes=['IncorrectFixVersion', 'ApprovalRequired', 'JiraIssueNotFound'],
+                            signame='ticket gate along a history'))
+        return out
     if prop == 'C10':
         for mode in ('noqueue', 'queue', 'skip'):
             out.append(_cfg('conv:%s:F:pr' % mode, 'converge %s 2 targets, PR event' % mode, F, [P1], mode,
@@ -912,6 +1070,14 @@ def family(prop, tier):
                         scen_orders([('eval_pr', 2), EV1, ('eval_queues',), EV1, ('eval_pr', 2)]),
                         signame='orders queue 2 PRs', expect_outcomes=['Merged'], nfresh=30,
                         green=(tier != 'thorough'), no_conflicts=(tier != 'thorough')))
+        out.append(_cfg('ids:queue:F', 'pull request #12 is queued, then #1 (whose id is a prefix of 12) is evaluated: both '
+                        'are queued under their own names', F, [P1, (12, 'bugfix/b', 'development/4.3')], 'queue',
+                        scen_expect([('eval_pr', 12), EV1, ('eval_queues',)], ['Queued', 'Queued', 'Merged']),
+                        green=True, no_conflicts=True, signame='pull request ids'))
+        out.append(_cfg('retry:noqueue:F', 'a push fails once and is retried: merge, then decline of another PR', F, [P1, P2b],
+                        'noqueue', with_failed_push(scen_orders([EV1, ('decline', 2), ('eval_pr', 2), EV1])),
+                        settings=ipr, green=True, no_conflicts=True, signame='retried push',
+                        expect_outcomes=['SuccessMessage']))
         out.append(_cfg('par:queue:F:child', 'event on the integration pull request = event on the parent',
                         F, [P1], 'queue', scen_same_as_parent([EV1], _child_event, EV1), settings=ipr))
         out.append(_cfg('par:queue:F:wtip', 'commit event on the integration tip = event on the parent',
@@ -922,6 +1088,18 @@ def family(prop, tier):
                         settings=ipr))
         out.append(_cfg('par:noqueue:F:child', 'event on the integration pull request = parent (no queue)',
                         F, [P1], 'noqueue', scen_same_as_parent([EV1], _child_event, EV1), settings=ipr))
+    elif prop == 'C15':
+        # (the histories with manual work need the git log model and are disabled below: too expensive)
+        out.append(_cfg('reset2:noqueue:F', 'reset / force_reset asked twice on a pull request without manual work, ordinary '
+                        'evaluations in between: each deletes its integration branches only, each is followed by a rebuild',
+                        F, [P1], 'noqueue', scen_reset_twice([('approvals', 1, []), EV1]), green=True, no_conflicts=True,
+                        settings=dict(required_peer_approvals=1), extra_refs=['bugfix/other', 'w/5.1/bugfix/other'],
+                        expect_outcomes=['ResetComplete', 'ApprovalRequired'], signame='repeated reset', sample_mod=2))
+        if tier == 'thorough':
+            out.append(_cfg('reset3:queue:A', 'the same, three targets, queue mode, three rounds', A, [P1], 'queue',
+                            scen_reset_twice([('approvals', 1, []), EV1], rounds=3), green=True, no_conflicts=True,
+                            settings=dict(required_peer_approvals=1), extra_refs=['bugfix/other', 'w/5.1/bugfix/other'],
+                            expect_outcomes=['ResetComplete', 'ApprovalRequired'], signame='repeated reset'))
     elif prop == 'C15-disabled':      # too expensive with the git log model (see DESIGN 11); not registered
         W51 = 'w/5.1/feature/a'
         RESET = ('comment', 1, 'contributor', '@robot reset')
@@ -949,6 +1127,13 @@ def family(prop, tier):
                             expect_outcomes=['NothingToDo']))
         out.append(_cfg('hold:queue:F:wait-late', 'hold queue: wait added after a first evaluation', F, [P1], 'queue',
                         scen_hold([EV1], [WAIT], [('uncomment', 1, '@robot wait')], EV1, ('NothingToDo',))))
+        for mode in ('noqueue', 'queue'):
+            out.append(_cfg('closed:%s:F:fresh' % mode, 'closed %s: declined before its first evaluation, evaluated twice' % mode,
+                            F, [P1], mode, scen_finished([], [('decline', 1)], EV1),
+                            expect_outcomes=['NothingToDo'], signame='closed pull request'))
+        out.append(_cfg('closed:noqueue:F:evaluated', 'closed noqueue: evaluated, declined, evaluated twice',
+                        F, [P1], 'noqueue', scen_finished([EV1], [('decline', 1)], EV1),
+                        expect_outcomes=['PullRequestDeclined'], signame='closed pull request'))
         DEP = ('comment', 1, 'contributor', '/after_pull_request=2')
         out.append(_cfg('hold:noqueue:F:dep', 'hold noqueue: dependency on an open pull request, lifted by merging it',
                         F, [P1, P2], 'noqueue',
@@ -956,6 +1141,12 @@ def family(prop, tier):
                         green=True, no_conflicts=True, expect_outcomes=['AfterPullRequest', 'SuccessMessage']))
     elif prop == 'C04':
         out.append(_indep_author_options('C04'))
+    elif prop == 'C18':
+        out.append(_cfg('ids:queue:F', 'pull request #12 is queued, then #1 (whose id is a prefix of 12) is evaluated: the '
+                        'queue names Bert-E derived are read back as belonging to the pull request they were derived for',
+                        F, [P1, (12, 'bugfix/b', 'development/4.3')], 'queue',
+                        scen_expect([('eval_pr', 12), EV1, ('eval_queues',)], ['Queued', 'Queued', 'Merged']),
+                        green=True, no_conflicts=True, signame='pull request ids'))
     elif prop == 'C09':
         out.append(_cfg('cachetags:noqueue:E', 'a release tag seen by an earlier job is deleted on the host: the cascade of '
                         'the next job is computed from the tags that exist', E, [PS], 'noqueue',
@@ -963,6 +1154,19 @@ def family(prop, tier):
                         tags=['4.3.17', '4.3.18'], green=True, no_conflicts=True,
                         expect_outcomes=['DeprecatedStabilizationBranch', 'SuccessMessage']))
     elif prop == 'C13':
+        def served_ok(events):
+            def scen(s, choose):
+                bad = []
+                for r in s.play(events):
+                    if r['event'].startswith('serve') and r['out'].startswith('WORKER-'):
+                        bad.append('C13 the worker does not survive / does not record the job (%s)' % r['out'])
+                return bad
+            return scen
+        out.append(_cfg('serve:queue:F:incoherent', 'the worker serves queue and PR jobs while the queues are incoherent '
+                        '(a queue branch deleted by hand)', F, [P1], 'queue',
+                        served_ok([EV1, ('ref_delete', 'q/5.1'), ('serve', 'queues'), ('serve', 'pr', 1),
+                                   ('serve', 'commit', 'q/4.3')]),
+                        green=True, no_conflicts=True, expect_outcomes=['Queued', 'IncoherentQueues']))
         out.append(_cfg('tmp:noqueue:F', 'the scratch directory of the previous job vanished before the next job',
                         F, [P1, P2b], 'noqueue', scen_after_fault([('eval_pr', 2)], [('tmp_reaper',)], EV1),
                         green=True, no_conflicts=True, expect_outcomes=['SuccessMessage']))
@@ -986,6 +1190,9 @@ def family(prop, tier):
         out.append(_cfg('adm:queue:F:create-new', 'create the newest branch while a pull request is queued', F, [P1],
                         'queue', scen_admin(Q1, ('create_branch', 'development/10.0'), _creates('development/10.0', True)),
                         green=True, no_conflicts=True, which=('C01',), expect_outcomes=['Queued', 'JobSuccess']))
+        out.append(_cfg('adm:queue:F:rebuild-order', 'rebuild the queues: pull request #2 was queued before #1', F, [P1, P2b],
+                        'queue', scen_admin([('eval_pr', 2), EV1], ('rebuild_queues',), _rebuild(lambda s, b: [2, 1])),
+                        green=True, no_conflicts=True, expect_outcomes=['Queued', 'JobSuccess']))
         out.append(_cfg('adm:queue:F:rebuild', 'rebuild the queues with two pull requests queued', F, [P1, P2b], 'queue',
                         scen_admin([EV1, ('eval_pr', 2)], ('rebuild_queues',), _rebuild(_queued_ids)),
                         green=True, no_conflicts=True, expect_outcomes=['Queued', 'JobSuccess']))
